@@ -60,6 +60,8 @@ impl Synchronizer {
                                     .duration_since(UNIX_EPOCH)
                                     .expect("Failed to measure time")
                                     .as_millis();
+                                #[cfg(hotstuff_verif)]
+                                let now = network::simnet::now_millis();
                                 requests.insert(parent.clone(), now);
                                 let address = committee
                                     .address(&author)
@@ -88,6 +90,8 @@ impl Synchronizer {
                                 .duration_since(UNIX_EPOCH)
                                 .expect("Failed to measure time")
                                 .as_millis();
+                            #[cfg(hotstuff_verif)]
+                            let now = network::simnet::now_millis();
                             if timestamp + (sync_retry_delay as u128) < now {
                                 debug!("Requesting sync for block {} (retry)", digest);
                                 let addresses = committee
